@@ -33,7 +33,7 @@ from bv.stacks.bipsys import BipSystem
 
 PROPERTY = "C13"
 LEVEL = "model_checking"
-BUDGET = {"quick": 95.0, "thorough": 1200.0}
+BUDGET = {"quick": 120.0, "thorough": 1500.0}
 RULE = ("part1: every layout of the family x every node as originator x (FIFO delivery + each single overtaking among "
         "datagrams that share a network; overtakings between datagrams on different networks are skipped because no B/IP "
         "node sees both).  Family A: every multiset of 1..3 [thorough 4] subnets, each with 0/1 BBMD and 0..2 ordinary nodes, "
